@@ -281,7 +281,7 @@ func (d c08) Execute(c *core.Case) *core.Result {
 						}
 					}
 				}
-				res.Violate("C08", class, fmt.Sprintf("%s verification of %s by the caching actor returned %s (tip %s, %s); a cache-less fresh process on the same log returns %s (tip %s, %s) [cache ref %s written at log length %d, log length now %d]", vop.Mode, vop.Ref, v.Class, short10(v.Tip), v.Err, tv.Class, short10(tv.Tip), tv.Err, short10(cur), cacheLogLen, len(w.Entries)), op.ID, feat...)
+				res.Violate("C08", class, fmt.Sprintf("%s verification of %s by the caching actor returned %s (tip %s, %s); a cache-less fresh process on the same log returns %s (tip %s, %s) [cache ref %s, index complete up to log length %d, log length now %d]", vop.Mode, vop.Ref, v.Class, short10(v.Tip), v.Err, tv.Class, short10(tv.Tip), tv.Err, short10(cur), cacheLogLen, len(w.Entries)), op.ID, feat...)
 				return res
 			}
 			if v.Class == "accept" && (vop.Mode == "full" || vop.Mode == "from") {
@@ -298,7 +298,14 @@ func (d c08) Execute(c *core.Case) *core.Result {
 			if cur != "" {
 				cacheHistory = append(cacheHistory, cacheVal{cur, cacheLogLen})
 			}
-			cacheLogLen = len(w.Entries)
+			// only a (re)population scans the whole log; a verification rewrites the cache
+			// without making its policy/attestation index complete for entries it did not walk
+			if op.Kind == "cachePopulate" || cacheLogLen < 0 {
+				cacheLogLen = len(w.Entries)
+			}
+			if now == "" {
+				cacheLogLen = -1
+			}
 		}
 	}
 	pattern := []string{}
